@@ -84,6 +84,7 @@ type Exec struct {
 	memoBusy int
 	memoN    map[string]int
 	pendingAssert string
+	assertFor map[*ast.CallExpr]bool
 	tainted map[types.Object]bool // slice variables that may share their backing array with a caller's slice
 	aliasN  int
 	keepVar map[types.Object]bool // function-level locals mentioned in ensures clauses: kept across merges
